@@ -147,13 +147,13 @@ Theorem top_spec : forall manual p extra db0 o x s,
   run_top E C fault manual p extra (init_st db0) = (o, x, s) ->
   scoped [] p = true -> x_rb (s_fl s) = false -> x_drop (s_fl s) = false ->
   s_db s = spec_final (negb (c_nonest C)) o (rev (s_ops s)) db0
-  /\ (x_spign (s_fl s) = false -> top_ok o (rev (s_ops s)) = true /\ usable o (rev (s_ops s)) = true).
+  /\ top_ok o (rev (s_ops s)) = true /\ usable o (rev (s_ops s)) = true.
 Proof.
   intros manual p extra db0 o x s H Hsc Hrb Hdr. unfold run_top, issue in H.
   cbn [init_st s_ops length s_db s_tx s_gen s_txlog s_fl] in H.
   destruct (fault 0%nat) eqn:F0.
   - (* BEGIN failed *)
-    inversion H; subst. cbn. split; [reflexivity|]. intros _. split; reflexivity.
+    inversion H; subst. cbn. split; [reflexivity|]. split; reflexivity.
   - match type of H with context [run_body E C fault p None ?ss] => set (s1 := ss) in * end.
     destruct (run_body E C fault p None s1) as [[[r l] h] s2] eqn:Eb.
     destruct (finish_fl _ _ _ _ _ _ _ _ _ _ H) as [Hfl _].
@@ -168,14 +168,14 @@ Proof.
     assert (Hops : s_ops s = (if is_ok r then KCommit else KRollback, fault (length (s_ops s2))) :: nops ++ [(KBegin, false)]).
     { rewrite D2, B1. subst s1; reflexivity. }
     assert (Hdb0 : s_db s2 = db0) by (rewrite A6; subst s1; reflexivity).
-    rewrite Hops, Hfl. subst o.
+    rewrite Hops. subst o.
     set (fc := fault (length (s_ops s2))) in *.
     split.
     + (* atomicity *)
       unfold spec_final. rewrite (commit_ok_final _ _ _ B2). cbn [andb].
       rewrite D1, Hdb0. destruct r; cbn [is_ok cls_of is_nil opkind_eqb andb]; try reflexivity.
       destruct fc; cbn [negb]; [reflexivity|]. symmetry. exact (f_equal fst A2).
-    + intros Hx. destruct (B3 eq_refl Hx) as (P1 & P2 & P3 & P4 & P5).
+    + destruct (B3 eq_refl) as (P1 & P2 & P3 & P4 & P5).
       split.
       * unfold top_ok. rewrite (commit_ok_final _ _ _ B2), A8, andb_true_r.
         destruct r; cbn [is_ok cls_of is_nil opkind_eqb andb]; try apply cls_eqb_refl.
@@ -194,7 +194,6 @@ Proof. intros manual p extra db0 o x s H Hs Hr Hd. exact (proj1 (top_spec _ _ _ 
 Lemma top_result : forall manual p extra db0 o x s,
   run_top E C fault manual p extra (init_st db0) = (o, x, s) ->
   scoped [] p = true -> x_rb (s_fl s) = false -> x_drop (s_fl s) = false ->
-  x_spign (s_fl s) = false ->
   top_ok o (rev (s_ops s)) = true /\ usable o (rev (s_ops s)) = true.
 Proof. intros manual p extra db0 o x s H Hs Hr Hd. exact (proj2 (top_spec _ _ _ _ _ _ _ H Hs Hr Hd)). Qed.
 
